@@ -16,7 +16,9 @@ LEVEL_TEXT = ("TLC checks on bounded instances (2 observables x 3 observers, eve
               "graph and seeded random walks are replayed on real Observable/Observer objects (stand-alone and base-class/member use, both "
               "destruction orders) under ASan+UBSan and on real TimeStamp objects, comparing every return value / rank vector with TLC's; recorded "
               "random 250-step executions over larger universes and multi-threaded bursts of 2-8 threads creating, renewing, copying and moving "
-              "stamps (also under TSan) are validated by TLC trace specifications on the logged values")
+              "stamps (also under TSan) are validated by TLC trace specifications on the logged values; far-stamp histories (the real counter "
+              "advanced by 2^31+1 values - thorough: 2^31-1, 2^31, 2^31+1, 2^32, 2^32+1 - between an observer's poll and the next notification "
+              "and between compared / copied / renewed stamps), scripted in the product of the two contract specifications, are replayed too")
 LEVEL_NOTE = ("bounded: exhaustive parts use 2 observables x 3 observers, 3 stamp cells, 3-4 threads x 2-3 counter operations; the real "
               "concurrent executions are sampled (free-running threads), not schedule-controlled; observers are checked single-threaded (the "
               "statement's schedules quantifier is about time stamps); copying an Observer / Observable object is outside the statement and not "
@@ -487,6 +489,100 @@ def negative_control(chk, module, cfg, expect, what, r):
     chk.log("negative control %s: %s refuted by TLC (invariant %s, %d states)" % (cfg, what, r.violated, r.distinct))
 
 
+# ---------------------------------------------------------------------------
+# far stamps: the counter moves by 2^31 .. 2^32+1 inside a history (spec/utility/FarGap.tla, FarStamps.tla)
+# ---------------------------------------------------------------------------
+API_FAR = "FarStamps"
+FAR_META = {"nw": 4, "nc": 3}
+
+
+def _limbs_int(v):
+    return v[0] * (1 << 30) + v[1]
+
+
+def far_histories(chk, quick):
+    """One scripted history per far class; every expected value is computed by TLC (product of the two contract specifications)."""
+    cfg = "FarStamps.cfg" if quick else "FarStamps_thorough.cfg"
+    ag, r = adt.build_graph(os.path.join(SPEC, "FarStamps.tla"), os.path.join(SPEC, cfg), tag="c19-far")
+    hs = adt.all_paths(ag, 1000, 100) or []
+    chk.add_model("FarStamps/" + cfg, r, "far-stamp scripts: contract invariants, declarative reading and stamp laws along %d histories" % len(hs))
+    for h in hs:
+        if sum(1 for st in h if st["a"] == "Advance") != 1 or h[-1]["a"] != "Teardown":
+            raise InfraError("FarStamps produced an incomplete script: %s" % [st["a"] for st in h])
+    if not hs:
+        raise InfraError("FarStamps produced no history")
+    return hs
+
+
+def far_start(pool, exe, hs):
+    """Each far history runs in a process of its own (its Advance takes the real code tens of seconds), beside the rest of the check."""
+    def one(i):
+        return adt.run_driver(exe, [hs[i]], "c19-far-%d" % i, isolate=0, meta=FAR_META, env=FAST_SAN, timeout=3000)
+    return [pool.submit(one, i) for i in range(len(hs))]
+
+
+def far_collect(chk, hs, futures, tag="c19-far"):
+    info = []
+    for h, f in zip(hs, futures):
+        res, rc, stderr, wall = f.result()
+        k_adv = [k for k, st in enumerate(h) if st["a"] == "Advance"][0]
+        cls = h[k_adv]["arg"]["cls"]
+        prefix = "%s(%s)" % (API_FAR, cls)
+        if 0 not in res:
+            if "Sanitizer" in stderr or "runtime error" in stderr:
+                mm = {"case": 0, "step": -1, "kind": "crash", "action": None, "field": "crash", "expected": None,
+                      "observed": "driver rc=%s" % rc, "stderr": stderr[-3000:]}
+                mms = [mm]
+            else:
+                raise InfraError("far-stamp driver stopped without result (rc=%s, %.0fs): %s" % (rc, wall, stderr[-1500:]))
+        else:
+            obs = res[0].get("obs", [])
+            # self-check (not a contract observable): the advance really happened, by exactly the distance the specification names.
+            # `draws` is the driver's own loop count; first / last are read from the scratch stamp, i.e. through the code under
+            # test: if they disagree while the contract comparison below finds nothing, the run is void (InfraError); if the
+            # comparison does find a mismatch, that mismatch is the finding and the disagreement is only noted.
+            if len(obs) > k_adv and "first" in obs[k_adv]:
+                a = obs[k_adv]
+                dist = _limbs_int(h[k_adv]["arg"]["dist"])
+                first, last, draws = _limbs_int(a["first"]), _limbs_int(a["last"]), _limbs_int(a["draws"])
+                if draws != dist - 1:
+                    raise InfraError("far-stamp self-check failed for %s: dist=%d but the driver drew %d values" % (cls, dist, draws))
+                readings_ok = (last - first == dist - 2)
+            else:
+                raise InfraError("far-stamp driver did not perform the Advance of %s: %s" % (cls, json.dumps(obs[k_adv:k_adv + 1])[:300]))
+            mms = adt.compare([h], res, rc, stderr)
+            if not readings_ok:
+                if not mms:
+                    raise InfraError("far-stamp self-check failed for %s: dist=%d draws=%d first=%d last=%d" % (cls, dist, draws, first, last))
+                chk.note("far stamps %s: the scratch stamp read %d before and %d after %d draws (the values read back are themselves off)"
+                         % (cls, first, last, draws))
+            # vacuity guard: the polls behind the gap were executed and are compared
+            polls = [k for k, st in enumerate(h) if k > k_adv and st["a"] == "Poll" and k < len(obs) and "ret" in obs[k]]
+            if len(polls) < 6:
+                raise InfraError("vacuity guard: only %d polls observed behind the gap of %s" % (len(polls), cls))
+            info.append({"class": cls, "distance": dist, "values_drawn_by_advance": draws, "first": first, "last": last,
+                         "polls_compared_behind_gap": len(polls), "steps": len(h), "wall_s": round(wall, 1)})
+        for mm in mms:
+            if mm["kind"] == "missing":
+                raise InfraError("far-stamp driver gave no result line (rc=%s): %s" % (rc, stderr[-1500:]))
+            what = "%s: step %d %s(%s): %s expected %s observed %s" % (
+                prefix, mm["step"], mm.get("action"), json.dumps(mm.get("arg")), mm["field"],
+                json.dumps(mm.get("expected"))[:300], json.dumps(mm.get("observed"))[:300])
+            rep = {"kind": "history", "property": chk.pid, "tag": tag, "sig_prefix": prefix, "meta": FAR_META, "history": h,
+                   "mismatch": {k: v for k, v in mm.items() if k != "stderr"}, "info": {"far_class": cls}}
+            if mm.get("stderr"):
+                rep["stderr_tail"] = mm["stderr"][-2500:]
+            chk.violation(sig_of(prefix, mm), what, rep)
+        chk.cov["evaluations"] += 1
+    chk.count_actions(hs)
+    chk.require_actions(["Advance"])
+    chk.cov["distinct_nontrivial"] += len(hs)
+    chk.cov["far_stamps"] = info
+    for i in info:
+        chk.log("far stamps %s: counter advanced by %d values in one history (%d steps, %d polls behind the gap compared) in %.1fs"
+                % (i["class"], i["values_drawn_by_advance"], i["steps"], i["polls_compared_behind_gap"], i["wall_s"]))
+
+
 def run(chk, replay=None):
     quick = chk.tier == "quick"
     rnd = random.Random(chk.seed)
@@ -497,12 +593,19 @@ def run(chk, replay=None):
         "recorded sequential executions use 3 observables x 6 observers / 5 stamp cells; longer histories or larger universes are not explored",
         "concurrent executions are free-running: interleavings are sampled, not enumerated; copies are taken only from stamps no other thread changes",
         "the burst logs are sorted by value outside TLC; StampsTrace rejects an unsorted or incomplete list instead of trusting it",
+        "far stamps: one scripted history per distance class (quick: 2^31+1 only); distances beyond 2^32+1 and a wrap of the 64-bit counter are not reached",
     ]
     if replay:
         return do_replay(chk, replay)
 
-    # 1. design level (independent TLC runs, started together) ---------------------------------------------
     from concurrent.futures import ThreadPoolExecutor
+    # 0. far stamps: started first, each history in its own process beside everything else; collected at the end -----
+    exe_far = build.build("drv_far_stamps", san="address,undefined", driver_dir="stamps")
+    far_hs = far_histories(chk, quick)
+    far_pool = ThreadPoolExecutor(max_workers=len(far_hs))
+    far_futures = far_start(far_pool, exe_far, far_hs)
+
+    # 1. design level (independent TLC runs, started together) ---------------------------------------------
     jobs = [
         ("mc", "ObserversMC", "ObserversMC.cfg" if quick else "ObserversMC_thorough.cfg",
          "all histories up to K: polls = declarative reading, independent per observer, orphans silent, nothing dangles"),
@@ -628,6 +731,8 @@ def run(chk, replay=None):
     chk.cov["concurrent_bursts"]["tsan"] = len(tcfgs)
     chk.cov["concurrent_bursts"]["events"] += sum(len(e) for e in execs_t)
     chk.cov["evaluations"] += len(cfgs) + len(tcfgs)
+    far_collect(chk, far_hs, far_futures)
+    far_pool.shutdown()
     collect_design()
     for g in pending_guards:
         g.result()                                   # re-raises an InfraError of a guard
@@ -642,7 +747,13 @@ def do_replay(chk, path):
     rep = json.load(open(path))
     kind = rep["kind"]
     is_obs = rep.get("sig_prefix") == API_OBS
-    if kind == "history":
+    if kind == "history" and str(rep.get("sig_prefix", "")).startswith(API_FAR):
+        from concurrent.futures import ThreadPoolExecutor
+        exe = build.build("drv_far_stamps", san="address,undefined", driver_dir="stamps")
+        pool = ThreadPoolExecutor(max_workers=1)
+        far_collect(chk, [rep["history"]], far_start(pool, exe, [rep["history"]]), tag="replay")
+        pool.shutdown()
+    elif kind == "history":
         if is_obs:
             exe = build.build("drv_observers", san="address,undefined")
         else:
